@@ -155,16 +155,25 @@ theorem call_function_runs_unbound {C : Ctx} {rec : Oracle} {name : String} {arg
     walker whose receiver is the empty handle -/
 theorem call_ns_runs {C : Ctx} {rec : Oracle} {k : CallKind} {ns name : String} {args : List (String × Expr)}
     {c c2 : Cfg} {f : Callable} {kw : List (String × Val)}
-    (hk : k = .implicit ns ∨ k = .classOp ns ∨ k = .bridge ns)
+    (hk : k = .implicit ns ∨ k = .bridge ns)
     (ha : evalArgs rec args c = some (.ok (kw, c2)))
     (hf : resolveNs C ns name = some f) :
     evalStep C rec (.call k name args) c =
       invoke rec (match f.kind with | .bridge _ => .function | _ => .operation) f.body kw .none c2 := by
-  rcases hk with rfl | rfl | rfl <;>
+  rcases hk with rfl | rfl <;>
   · simp only [evalStep]
     rw [bind_ok ha]
     simp only [hf]
     cases f.kind <;> rfl
+
+/-- `transform KL::op(args)`: the class-based operation of the CLASS KL (looked up before the parameters are evaluated) -/
+theorem call_classOp_runs {C : Ctx} {rec : Oracle} {ns name : String} {args : List (String × Expr)}
+    {c c2 : Cfg} {f : Callable} {kw : List (String × Val)}
+    (ha : evalArgs rec args c = some (.ok (kw, c2)))
+    (hf : findCallable C (fun f => f.kind = .classOp ns ∧ f.name = name) = some f) :
+    evalStep C rec (.call (.classOp ns) name args) c = invoke rec .operation f.body kw .none c2 := by
+  simp only [evalStep, hf]
+  rw [bind_ok ha]
 
 /-- inside the body of a class-based operation `self` reads as the empty handle -/
 theorem eval_self_classOp (C : Ctx) (rec : Oracle) (kw : List (String × Val)) (st : State) :
